@@ -26,6 +26,29 @@ GLOBAL_ASSUMPTIONS = {
 }
 
 
+
+def _from_engine(obj):
+    mod = getattr(obj, "__module__", None) or getattr(type(obj), "__module__", "") or ""
+    return mod == "pyvc" or mod.startswith("pyvc.") or mod.startswith("pyvc_")
+
+
+def engine_gap(exc):
+    """reason why an exception is an artefact of the engine's stand-ins rather than a behaviour of the code, or None"""
+    import re as _re
+
+    from . import terms as _T
+    from . import vnp as _vnp
+
+    if isinstance(exc, _T.Unsupported):
+        return "unsupported construct"
+    if isinstance(exc, AttributeError) and getattr(exc, "obj", None) is not None and _from_engine(exc.obj) and not isinstance(exc.obj, _T.Sym):
+        return f"the stand-in {getattr(exc.obj, '__name__', type(exc.obj).__name__)} of the engine has no attribute {getattr(exc, 'name', '?')!r}"
+    if isinstance(exc, TypeError):
+        m = _re.match(r"(?:\w+\.)*(\w+)\(\) (got an unexpected keyword argument|takes|missing|got multiple values)", str(exc))
+        if m and callable(getattr(_vnp, m.group(1), None)) and _from_engine(getattr(_vnp, m.group(1))):
+            return f"the stand-in {m.group(1)} of the engine has a narrower signature than the library function"
+    return None
+
 class Check:
     def __init__(self, pid, tier="quick", seed=0, level="proof"):
         self.pid = pid
@@ -185,6 +208,14 @@ class Check:
     def error(self, name, detail):
         return self.record(name, "error", "checker", 0.0, None, None, detail)
 
+    def raised(self, name, exc, **kw):
+        """An exception escaped repository code executed by the engine.  A limit of the engine (an unsupported construct; an attribute, keyword or
+        method the numpy / scipy / math stand-ins of pyvc do not provide) leaves the obligation undecided; anything else is a refuted obligation."""
+        why = engine_gap(exc)
+        if why:
+            return self.error(name, f"undecided, {why}: {type(exc).__name__}: {exc}")
+        return self.fail(name, f"{type(exc).__name__}: {exc}", **kw)
+
     def parallel(self, tasks, worker, jobs=None):
         """Run worker(child_check, task) for every task in forked worker processes (fork: the transformed modules and
         all contract state are inherited) and merge the recorded obligations in task order."""
@@ -261,10 +292,7 @@ class Check:
         for k, pr in enumerate(paths):
             tag = name if len(paths) == 1 else f"{name}.path{k}"
             if pr.exc is not None:
-                if isinstance(pr.exc, T.Unsupported):      # a limit of the engine, not a behaviour of the code: undecided, never a violation
-                    self.error(f"{tag}.no_exception", f"unsupported construct on this path: {pr.exc}")
-                else:
-                    self.fail(f"{tag}.no_exception", f"{type(pr.exc).__name__}: {pr.exc}", fn=fn, goal=goal, replay=replay)
+                self.raised(f"{tag}.no_exception", pr.exc, fn=fn, goal=goal, replay=replay)      # a limit of the engine is undecided, never a violation
                 continue
             out.append((tag, pr.pc, pr.value))
         self.extra["paths_explored"] = self.extra.get("paths_explored", 0) + len(paths)
@@ -296,8 +324,10 @@ class Check:
         if ledger is not None:
             import re as _re
             # an obligation generated once per path of a function that gained a branch ("name.path<k>.rest") covers the ledger entry "name.rest"
-            covered = set(names) | {_re.sub(r"\.path\d+(?=\.|\[|$)", "", n) for n in names}
-            missing = sorted(set(ledger) - covered)
+            # ... and the other way round when a refactoring merges the branches: the ledger entries "name.path<k>.rest" are covered by "name.rest"
+            strip = lambda n: _re.sub(r"\.path\d+(?=\.|\[|$)", "", n)  # noqa: E731
+            covered = set(names) | {strip(n) for n in names}
+            missing = sorted(n for n in set(ledger) - covered if strip(n) not in covered)
             if missing:
                 ledger_msg = f"{len(missing)} obligations of the ledger were not generated, e.g. {missing[:3]}"
         n_obl = len(self.obls)
